@@ -26,9 +26,9 @@ BOUNDS = {
 RHS = ['h', 'h[0]', '[h, h]', '{"k": h}', 'y', '[1, [2]]', 'enumerate(h)', 'items(d)', 't', 'd', 'd["k"]',
        '[d, t]', 'h[1:]', 'reversed(h)', 'sorted(d)', 'x', 'x[0]', 'values(d)', 'map(h, v => v)',
        'filter(h, v => True)', 'h if True else 0', 'get(d, "k")', 'pop(h)', '(v => v)(h)', 'z', 'he', 'hd', 'd["e"]', '[he]', 't + t',
-       'h or []', 'True and h', '(h or []) if True else None', 'he or h', 'None or d', 'deepn', 'deepn[0][0]', '[deepn]', 'not he and h']
+       'h or []', 'True and h', '(h or []) if True else None', 'he or h', 'None or d', 'deepn', 'deepn[0][0]', '[deepn]', 'not he and h', 'hl']
 RHS_SMALL = ['h', 'h[0]', '[h, h]', '{"k": h}', 'y', 'enumerate(h)', 'items(d)', 't', 'x[0]', 'get(d, "k")', 'z', 'he', 'hd', 'h or []',
-             'True and h', 'deepn', 'x', '[x]', '{"p": z}']
+             'True and h', 'deepn', 'x', '[x]', '{"p": z}', 'hl']
 
 
 DEEPX = 1500        # nesting depth of the host list `deepx`: copying it exhausts the interpreter's recursion limit (2500 here)
@@ -55,10 +55,10 @@ def actions(alpha):
              'x = [h]; y = x[0]', 'y = x', 'x = y',
              # assignments made INSIDE a function body (host-defined functions with statement bodies, bound through ast_names)
              'x = af(h)', 'y = ag(h)', 'af(x)', 'x = ag(x)', 'y = map([h], af)']
-    paths = ['x', 'x[0]', 'x[0][0]', 'y', 'y[0]', 'h', 'h[0]', 'z["k"]', 'z["k"][0]', 'd["k"]', 'x[1]', 'y[0][1]',
+    paths = ['x[70]', 'y[71]["q"]', 'hl[70]', 'x', 'x[0]', 'x[0][0]', 'y', 'y[0]', 'h', 'h[0]', 'z["k"]', 'z["k"][0]', 'd["k"]', 'x[1]', 'y[0][1]',
              't[1]', 'x[0][1]', 'he', 'hd', 'z["k"][1]']
     if alpha != 'full':
-        paths = ['x', 'x[0]', 'x[0][0]', 'y', 'y[0]', 'h[0]', 'z["k"]', 'd["k"]', 'x[0][1]', 't[1]', 'he', 'z["k"][1]']
+        paths = ['x[70]', 'hl[70]', 'x', 'x[0]', 'x[0][0]', 'y', 'y[0]', 'h[0]', 'z["k"]', 'd["k"]', 'x[0][1]', 't[1]', 'he', 'z["k"][1]']
     for p in paths:
         acts.append(f'push({p}, 9)')
         acts.append(f'{p}[0] = 7')
@@ -79,7 +79,9 @@ def fresh_host():
     deepn = [D(0)]
     for _ in range(24):
         deepn = [deepn]
-    out = {'h': h, 'd': d, 't': t, 'he': [], 'hd': {}, 'deepn': deepn}
+    # a long host list with scalars at its head and containers in its tail (a copier that inspects only a prefix)
+    longtail = [D(i) for i in range(70)] + [[D(1)], {'q': [D(2)]}]
+    out = {'h': h, 'd': d, 't': t, 'he': [], 'hd': {}, 'deepn': deepn, 'hl': longtail}
     if _ALPHA[0] == 'deep':
         deepx = [D(0)]
         for _ in range(DEEPX):
